@@ -228,7 +228,9 @@ func (e *Explorer) Run(harness string, maxPaths int, maxSamples int) (*HarnessRe
 				seenViol[key] = true
 				res.Violations = append(res.Violations, out)
 			}
-			if e.StopEarly {
+			if e.StopEarly || len(res.Violations) >= maxViol {
+				// enough distinct counterexamples: the verdict cannot change any more, and a defect that
+				// also blows the path count up must not turn a violation into a timeout
 				stop = true
 			}
 		default:
